@@ -28,6 +28,80 @@ type Scn struct {
 	CM     *string           `json:"cm,omitempty"`     // parseCM: annotation value
 	Blob   *string           `json:"blob,omitempty"`   // exploration payload (opaque to the model)
 	N      *int64            `json:"n,omitempty"`      // exploration: small integer knob
+	// cel / celX (render stream): a CEL expression at one of the three places package content can
+	// put one, evaluated against a render context built from Cfg (spec.config), Imgs and N
+	// (environment knob: bit 0 = OpenShift present).
+	Place string            `json:"place,omitempty"` // ann (package-operator.run/condition) | cond (spec.filters.conditions[]) | path (spec.filters.paths[])
+	Expr  *CelExpr          `json:"expr,omitempty"`  // cel: the expression as a tree (celX: Blob holds free text)
+	Imgs  map[string]string `json:"imgs,omitempty"`  // images of the render context
+}
+
+// CelExpr is the modelled fragment of CEL: bool literal, field selection from a context variable,
+// negation, conditional.
+//
+//	{"k":"lit","b":true} | {"k":"get","p":["config","a"]} | {"k":"not","e":E} | {"k":"tern","c":E,"x":E,"y":E}
+type CelExpr struct {
+	K string   `json:"k"`
+	B bool     `json:"b,omitempty"`
+	P []string `json:"p,omitempty"`
+	E *CelExpr `json:"e,omitempty"`
+	C *CelExpr `json:"c,omitempty"`
+	X *CelExpr `json:"x,omitempty"`
+	Y *CelExpr `json:"y,omitempty"`
+}
+
+func Lit(b bool) *CelExpr            { return &CelExpr{K: "lit", B: b} }
+func Get(p ...string) *CelExpr       { return &CelExpr{K: "get", P: p} }
+func Not(e *CelExpr) *CelExpr        { return &CelExpr{K: "not", E: e} }
+func Tern(c, x, y *CelExpr) *CelExpr { return &CelExpr{K: "tern", C: c, X: x, Y: y} }
+
+// Src prints the expression in CEL syntax ("" for a malformed tree).
+func (e *CelExpr) Src() string {
+	if e == nil {
+		return ""
+	}
+	switch e.K {
+	case "lit":
+		if e.B {
+			return "true"
+		}
+		return "false"
+	case "get":
+		if len(e.P) == 0 {
+			return ""
+		}
+		out := e.P[0]
+		for _, k := range e.P[1:] {
+			out += "." + k
+		}
+		return out
+	case "not":
+		if e.E == nil {
+			return ""
+		}
+		return "!(" + e.E.Src() + ")"
+	case "tern":
+		if e.C == nil || e.X == nil || e.Y == nil {
+			return ""
+		}
+		return "(" + e.C.Src() + " ? " + e.X.Src() + " : " + e.Y.Src() + ")"
+	}
+	return ""
+}
+
+// Dyn reports whether the CEL type checker gives the expression the static type dyn (any):
+// every field selection from a template-context variable (declared map(string, any)) is dyn.
+func (e *CelExpr) Dyn() bool {
+	if e == nil {
+		return false
+	}
+	switch e.K {
+	case "get":
+		return true
+	case "tern":
+		return e.X.Dyn() || e.Y.Dyn()
+	}
+	return false
 }
 
 // Raw marshals a generated value (map keys sorted by encoding/json).
